@@ -1079,6 +1079,14 @@ def _split_tuple_assignments(tree):
             if isinstance(n.func, ast.Name) and n.func.id == "getattr" and len(n.args) == 2 and not n.keywords and isinstance(n.args[1], ast.Constant) \
                     and isinstance(n.args[1].value, str) and n.args[1].value.isidentifier() and isinstance(n.args[0], (ast.Name, ast.Attribute)):
                 return ast.fix_missing_locations(ast.copy_location(ast.Attribute(value=n.args[0], attr=n.args[1].value, ctx=ast.Load()), n))
+            # getattr(obj, "name", None): the same read where the attribute exists (marked: it tolerates absence, so the definite-
+            # initialisation rule does not apply to it)
+            if isinstance(n.func, ast.Name) and n.func.id == "getattr" and len(n.args) == 3 and not n.keywords and isinstance(n.args[1], ast.Constant) \
+                    and isinstance(n.args[1].value, str) and n.args[1].value.isidentifier() and isinstance(n.args[0], (ast.Name, ast.Attribute)) \
+                    and isinstance(n.args[2], ast.Constant) and n.args[2].value is None:
+                at_ = ast.fix_missing_locations(ast.copy_location(ast.Attribute(value=n.args[0], attr=n.args[1].value, ctx=ast.Load()), n))
+                at_._optional_read = True
+                return at_
             # f(*(g(x) for x in (a, b)))  ->  f(g(a), g(b))     (a literal tuple of at most four elements)
             if any(isinstance(a, ast.Starred) and isinstance(a.value, (ast.GeneratorExp, ast.ListComp)) for a in n.args):
                 args, ok = [], True
